@@ -62,14 +62,14 @@ func init() {
 			}
 			if tier == "thorough" {
 				jobs = append(jobs, J("H_C13_fmt", o, "fmt", 'e', "P", 2, "elo", -3, "ehi", 3), J("H_C13_fmt", o, "fmt", 'e', "P", 18, "elo", 0, "ehi", 1), J("H_C13_fmt", o, "fmt", 'e', "P", 25, "elo", 0, "ehi", 1),
-					J("H_C13_fmt", o, "fmt", 'f', "P", 5, "elo", -3, "ehi", 3), J("H_C13_fmt", o, "fmt", 'f', "P", 20, "elo", -2, "ehi", 2), J("H_C13_fmt", o, "fmt", 'f', "P", 1, "elo", 18, "ehi", 21),
+					J("H_C13_fmt", o, "fmt", 'f', "P", 1, "elo", 18, "ehi", 21),
 					J("H_C13_fmt", o, "fmt", 'g', "P", 3, "elo", -5, "ehi", -3), J("H_C13_fmt", o, "fmt", 'g', "P", 2, "elo", 1, "ehi", 4), J("H_C13_fmt", o, "fmt", 'G', "P", 1, "elo", -4, "ehi", -3))
 			}
 			return jobs
 		},
 		Bounds: map[string]string{
 			"quick":    "Append with an explicit precision, x of one word, every rounding mode and sign: %f with P in {0,2,3} and exponents -7..3 (including rounding positions at and above the leading digit), %e/%E with P in {0,2} around exponents 0 and 100 (two- vs three-digit exponent), %g/%G with P in {0,2,3,21} at the %e/%f decision boundaries (exponents -4..-3, 2..3; trailing zeros dropped; P above the digit count): output bytes equal the layout of the once-rounded value byte for byte. Format (verbs e E f F g G v) for +-1.5, +-0 and +-Inf: every combination of the '+', '-', ' ', '0' flags that fmt can pass, widths 0..12 or none, precision 2 or none, against fmt's float layout (sign choice, zero padding between sign and digits, infinities never zero padded). Zeros: for e f g G p b (precision -1 and 3) the text of +-0 is the same whatever exponent and buffer the zero kept from an earlier finite value.",
-			"thorough": "%e with P in {2,18,25}, %f with P in {1,5,20} and exponents up to 21, %g/%G with P in {1,2,3} over the exponent windows -5..-3 and 1..4. (A wider thorough grid - %f P=5 over -8..8, %g over -6..5 - ran for more than 48 minutes without finishing and was cut.)",
+			"thorough": "%e with P in {2,18,25}, %f with P=1 at exponents 18..21, %g/%G with P in {1,2,3} over the exponent windows -5..-3 and 1..4. (Tried and not registered: %f with P=5 and P=20 - layout obligations unknown at the 300 s limit; %f P=5 over -8..8 and %g over -6..5 - no result in 48 minutes.)",
 		},
 		Outside:     []string{"the p/b formats; the '#' flag; fmt's own treatment of %+v (plusV) which a Formatter cannot observe; Format's digits only for a fixed magnitude (the digits are the Append jobs' obligation); %g only at the listed precisions and exponent windows", "mantissas above one word"},
 		Assumptions: []string{"reference layout written in harness/decimal/c13_format.go (roundAt + digit placement); strconv.AppendInt modelled", archNote},
